@@ -2,6 +2,9 @@ from props._forest import bounded_for, replay_for
 
 META = {"level": "proof",
         "trusted_base": ["assumed contracts of intervaltree / collections.abc mixins (see DESIGN 3.7)"],
-        "assumptions": []}
+        "assumptions": ["finite-cardinality lemma (contracts/sections.py card_lemma): if every interval of the index carries a distinct "
+                        "member of the section's interval set, the index is no larger than the set, and as large exactly when every "
+                        "member has an interval (used for `len(index) == len(self.byte_intervals)`)",
+                        "assumed contract of IntervalTree.begin()/span(): least begin / greatest end minus least begin"]}
 bounded = bounded_for("C06")
 replay_obligation = replay_for("C06")
